@@ -419,10 +419,11 @@ class AutoSerialize:
         elif isinstance(value, set):
             # Convert set to list for serialization, store type info
             subgroup = group.require_group(name)
-            subgroup.attrs["_container_type"] = "set"
             # Convert set items to list and serialize
             list_value = list(value)
             self._serialize_container(list_value, subgroup, skip_names, skip_types, compressors)
+            # _serialize_container records "list"; the set tag has to be written after it
+            subgroup.attrs["_container_type"] = "set"
 
         elif hasattr(value, "bit_generator"):
             # NumPy random generator - save state through bit_generator
@@ -838,7 +839,7 @@ class AutoSerialize:
             arr = AutoSerialize._read_array_np(group, key)
             return torch.from_numpy(arr) if group.attrs.get(f"{key}.torch_save") else arr
 
-        if ctype in ("list", "tuple"):
+        if ctype in ("list", "tuple", "set"):
             # Determine maximum index to reconstruct order and size
             # Fast-path: ndarray-encoded homogeneous sequence
             if (
@@ -953,6 +954,8 @@ class AutoSerialize:
                     else:
                         raise KeyError(f"Missing expected key '{key}' in container")
             # Restore container type and special torch containers
+            if ctype == "set":
+                return set(items)
             seq_result = items if ctype == "list" else tuple(items)
             if torch_iterable_type == "Sequential":
                 return torch.nn.Sequential(*seq_result)
